@@ -1,5 +1,5 @@
 """C14 — concurrent requests are answered by their own responses; stragglers do no harm."""
-import concurrent.futures, json, os
+import concurrent.futures, glob, json, os, re, subprocess
 import vlib
 
 MANIFEST = {
@@ -7,7 +7,7 @@ MANIFEST = {
             "every reply delivery in any order/multiplicity, wake-ups, timeouts, responses/heartbeats/pongs with arbitrary ids, "
             "connection loss; int32(uint32) id wrap explicit): C14_own_reply, C14_receives, C14_timeout, C14_outcome_stable, "
             "C14_no_block, C14_no_leak, C14_fresh_ok, stated at the configuration REGENERATED from the source by `xlate futures` "
-            "(channel capacity, non-blocking signal, what the timeout removes, who stores a future, what a pong removes) with the "
+            "(channel capacity, non-blocking signal, what the timeout removes, who stores a future, what a pong removes, payload-before-signal order at every delivery site, the id expression) with the "
             "obligation C14_source_cfg_good; the model is tied to the real client by running SendSyncRequest/SendAsyncRequest/"
             "SendAsyncResponse/OnCron/OnMessage/OnOpen/OnClose over a fake getty session on generated histories (sequenced with "
             "checkpoints after every event, truly concurrent with 1..256 callers, and a batch with real 20 s timeouts, late and "
@@ -20,7 +20,7 @@ MANIFEST = {
 TABLES = [("futures", "FuturesCfg.v")]
 PROP_FILE = "Props/P_C14.v"
 TRUSTED = vlib.TRUSTED_COMMON + [
-    "tools/xlate futures (go/ast: capacity of Done, select/default around every send on .Done, RemoveMessageFuture in the timeout "
+    "tools/xlate futures (go/ast: order of the `.Response` assignment and the `.Done` signal, `int32(idGenerator.Inc())` ids, capacity of Done, select/default around every send on .Done, RemoveMessageFuture in the timeout "
     "case of syncCallback, `callback != nil` guard of futures.Store/Delete in sendAsync, RemoveMessageFuture in the heartbeat processor)",
     "Go harness remrun14/remruntcp (fake getty.Session, real listener/client/processors; parked deliveries counted from runtime.Stack) and this driver's case printer",
 ]
@@ -85,6 +85,31 @@ def write_conf(chk):
     return p
 
 
+def race_search(chk, conf):
+    """prompt-reply burst of the harness built with -race; returns the burst's own oracle failures and the race
+    reports in which the delivery's payload write meets the waiter's read"""
+    out = {"ran": False}
+    try:
+        h = vlib.build_harness(race=True)
+        res = chk.tmp("prompt.json")
+        env = dict(vlib.GOENV, CGO_ENABLED="1", GORACE="log_path=%s halt_on_error=0" % chk.tmp("race"))
+        subprocess.run([h, "remrun14", "out=" + res, "mode=prompt", "conf=" + conf, "g=8", "per=300", "seed=%d" % chk.seed],
+                       cwd=vlib.BUILD, env=env, timeout=900, stdout=subprocess.DEVNULL, stderr=subprocess.DEVNULL)
+        pr = json.load(open(res))["prompt"]
+    except Exception as e:  # the search is best effort: without it the violation stays `no-failing-input-found`
+        out["error"] = str(e)[:300]
+        return out
+    out.update(ran=True, requests=pr["requests"], nil_returns=pr["nil_returns"], oracle=pr["oracle"] or [])
+    reports = []
+    for f in glob.glob(chk.tmp("race") + ".*"):
+        for blk in open(f, errors="replace").read().split("=================="):
+            if "DATA RACE" in blk and "NotifyRpcMessageResponse" in blk and "syncCallback" in blk:
+                reports.append(re.sub(r"\n\s*\n", "\n", blk.strip())[:2500])
+    out["races"] = len(reports)
+    out["race_reports"] = reports[:2]
+    return out
+
+
 def nontrivial(c):
     """a history is non-trivial when at least two requests were pending at once or it has a
     duplicate/late/unknown-id delivery, a timeout, a colliding response/heartbeat/pong or a connection loss"""
@@ -110,7 +135,8 @@ def run(chk, only=None):
     pr = vlib.proof_step(chk, PROP_FILE, "From SeataV Require Import Props.P_C14.")
     conf = write_conf(chk)
     vlib.build_harness()
-    jobs = [("seq", dict(mode="seq", seed=chk.seed, nseq=70 if quick else 10000, nconc=8 if quick else 400, maxperm=3 if quick else 5))]
+    jobs = [("seq", dict(mode="seq", seed=chk.seed, nseq=70 if quick else 10000, nconc=8 if quick else 400, maxperm=3 if quick else 5,
+                         nbound=300 if quick else 3000))]
     nb = 1 if quick else 12
     for i in range(nb):
         jobs.append(("batch%d" % i, dict(mode="batch", seed=chk.seed * 1000 + i, nbatch=24 if quick else 80)))
@@ -149,6 +175,19 @@ def run(chk, only=None):
     if tcp.get("skipped"):
         chk.notes.append("tcp smoke scenario skipped (infrastructure): " + tcp["skipped"])
     corr_only = [i for i in mism if i not in oracle_fail]
+    if (corr_only or not pr["ok"]) and not chk.violations:
+        # failing-input search: a proof obligation or the correspondence broke but no history of this
+        # run violates the property's own statement. Prompt replies under the race detector: an
+        # unsynchronised write of the reply payload against the waiter's read is the failing schedule
+        search = race_search(chk, conf)
+        chk.coverage["failing_input_search"] = {k: search.get(k) for k in ("ran", "requests", "nil_returns", "races", "error")}
+        if search.get("oracle"):
+            chk.violation("prompt replies: " + search["oracle"][0], {"prompt_burst": search, "seed": chk.seed, "tier": chk.tier}, True)
+        elif search.get("race_reports"):
+            chk.violation("prompt replies under the race detector: the reply payload is written by NotifyRpcMessageResponse without "
+                          "synchronisation against the waiter's read in syncCallback (the waiter can wake up before the payload is there "
+                          "and return (nil, nil))", {"prompt_burst": search, "seed": chk.seed, "tier": chk.tier,
+                                                     "rerun": "build the harness with -race and run `verifh-race remrun14 mode=prompt g=8 per=300` with GORACE=log_path=<file>"}, True)
     if corr_only and not chk.violations:
         i = sorted(corr_only, key=size)[0]
         chk.violation("the real client and the model (at the regenerated configuration) disagree: %s; "
@@ -170,7 +209,7 @@ def run(chk, only=None):
         "evaluations": len(cases),
         "distinct_nontrivial": vlib.distinct([(c["c0"], c["h0"], c["events"]) for c in nt]),
         "rule": "histories generated from the seed: every order of the replies for 1..3 (thorough 1..5) callers in flight (exhaustive, every second one with all replies duplicated afterwards); sequenced (every event completes before the next; checkpoint of table size and "
-                "parked deliveries after each), concurrent (1/2/8/64/256 callers released at once, replies from separate goroutines "
+                "parked deliveries after each), boundary (8-15 spinning callers released together while the id counter stands 1-4 steps before MaxInt32; all in flight before any reply; two requests in flight must never carry the same id), concurrent (1/2/8/64/256 callers released at once, replies from separate goroutines "
                 "with delays, permuted and duplicated; compared through a witness linearisation) and batches with real 20 s timeouts "
                 "(dropped, late, late-duplicate replies, colliding responses/heartbeats/pongs, connection loss with requests pending); "
                 "1 in 5 sequenced histories is the malformed stream (unknown ids, junk bodies, colliding traffic only). "
